@@ -124,7 +124,7 @@ def shm_segment() -> Any:
 
         from vgi_rpc.shm import ShmSegment
 
-        seg = ShmSegment.create(1 << 16)
+        seg = ShmSegment.create(1 << 20)
         _SHM.append(seg)
 
         def _cleanup() -> None:
@@ -168,22 +168,28 @@ def configs(ctx: Ctx) -> list[dict[str, Any]]:
         add(["PHP", "H"], "raise1")  # pipe -> http -> pipe in one task against a concurrent first HTTP request
         add(["P", "M"], "ok")        # same kind, different capabilities
         add(["U", "PM"], "raise1")
-        add(["H", "H", "H"], "ok")
-        add(["H", "H", "H"], "raise1")
-        add(["H", "P", "H"], "ok")
-        add(["H", "H", "P"], "raise1")
+        # three tasks: one preemption in the quick tier (two in the thorough tier)
+        add(["H", "H", "H"], "ok", 1)
+        add(["H", "H", "H"], "raise1", 1)
+        add(["H", "P", "H"], "ok", 1)
+        add(["H", "H", "P"], "raise1", 1)
         return out
     two = [["H", "H"], ["P", "P"], ["H", "P"], ["HH", "H"], ["HH", "HH"], ["PH", "H"], ["PHP", "H"], ["HP", "PH"],
            ["P", "M"], ["M", "M"], ["U", "PM"], ["UH", "HU"], ["PHP", "HPH"]]
     for t in two:
         for hook in HOOKS:
             add(t, hook)
-    three = [["H", "H", "H"], ["H", "P", "H"], ["H", "H", "P"], ["P", "P", "P"], ["H", "P", "U"], ["HH", "H", "H"],
-             ["PH", "H", "H"], ["P", "M", "H"]]
-    for t in three:
-        for hook in ("ok", "raise1", "raise2", "always"):
+    for t, hooks in (
+        (["H", "H", "H"], ("ok", "raise1", "always")),
+        (["H", "P", "H"], ("ok", "raise1")),
+        (["H", "H", "P"], ("raise1",)),
+        (["P", "P", "P"], ("raise1", "raise2")),
+        (["H", "P", "U"], ("ok", "raise1")),
+        (["P", "M", "H"], ("ok",)),
+    ):
+        for hook in hooks:
             add(t, hook)
-    for t in (["H", "H"], ["P", "P"], ["H", "P"], ["HH", "H"], ["PH", "H"], ["P", "M"]):
+    for t in (["H", "H"], ["P", "P"], ["H", "P"], ["PH", "H"], ["P", "M"]):
         for hook in ("ok", "raise1", "always"):
             add(t, hook, 3)
     return out
@@ -195,9 +201,10 @@ def configs(ctx: Ctx) -> list[dict[str, Any]]:
 
 def make_setup(cfg: dict[str, Any]):
     from vgi_rpc.http import http_connect
-    from vgi_rpc.http._testing import make_sync_client
+    from urllib.parse import urlparse
+
+    from vgi_rpc.http._testing import _SyncTestClient, _SyncTestResponse, make_sync_client
     from vgi_rpc.rpc import PipeTransport, RpcError, RpcServer, ShmPipeTransport
-    from vgi_rpc.rpc._common import TransportKind
     from vgi_rpc.rpc._transport import UnixTransport
 
     class MemUnix(UnixTransport):
@@ -213,134 +220,148 @@ def make_setup(cfg: dict[str, Any]):
         def close(self) -> None:
             pass
 
+    class QuietClient(_SyncTestClient):
+        """``_SyncTestClient.post`` with falcon's ``wsgi.errors`` pointed at a sink (the hook's traceback is noise)."""
+
+        __slots__ = ()
+
+        def post(self, url: str, *, content: bytes, headers: dict[str, str]) -> Any:
+            merged = {**self._default_headers, **headers}
+            result = self._client.simulate_post(urlparse(url).path, body=content, headers=merged, wsgierrors=io.StringIO())
+            return _SyncTestResponse(result.status_code, result.content, headers=dict(result.headers))
+
     n_fail = HOOKS[cfg["hook"]]
     need_http = any("H" in t for t in cfg["tasks"])
+    # The server, the implementation and the falcon app are built once per configuration (building the app costs
+    # more than an execution); every execution starts from a fresh *binding* state: unbound, no capabilities, a
+    # fresh cooperative lock, fresh monitor logs.  Nothing else in the server/app depends on earlier executions.
+    rig: dict[str, Any] = {"w": None, "s": None}
+
+    def tid() -> int:
+        t = rig["s"].current()
+        return -1 if t is None else t.id
+
+    class Impl:
+        def on_serve_start(self, kind: Any) -> None:
+            w = rig["w"]
+            log = w["log"]
+            w["hooks"] += 1
+            k = w["hooks"]
+            c = w["cur_call"].get(tid())
+            ev = {"e": "hook", "kind": str(kind.value), "n": k, "res": None, "pos": len(log)}
+            log.append(ev)
+            if c is not None:
+                c["hooks"].append(ev)
+            else:
+                w.setdefault("stray_hooks", []).append(ev)
+            S.point("hook:enter")
+            ev["res"] = "raise" if k <= n_fail else "ok"
+            ev["end"] = len(log)
+            log.append({"e": "hook-end", "n": k})
+            if k <= n_fail:
+                raise HookBoom(f"hook failure {k}")
+
+        def ping(self, n: int) -> int:
+            w = rig["w"]
+            log = w["log"]
+            kind = srv.transport_kind
+            ev = {"e": "body", "n": n, "seen": None if kind is None else str(kind.value), "pos": len(log)}
+            log.append(ev)
+            r = w["cur_req"].get(tid())
+            if r is not None:
+                r["bodies"].append(ev)
+            S.point("body")
+            return n + 1
+
+    class Srv(RpcServer):
+        """Logs entry/exit of the real method (linearizability history)."""
+
+        def _notify_transport(self, kind: Any, capabilities: frozenset[str]) -> None:
+            w = rig["w"]
+            log, calls, cur_call = w["log"], w["calls"], w["cur_call"]
+            me = tid()
+            c = {"task": me, "kind": str(kind.value), "caps": tuple(sorted(capabilities)), "inv": len(log),
+                 "ret": None, "raised": None, "hooks": []}
+            calls.append(c)
+            log.append({"e": "call", "i": len(calls) - 1})
+            r = w["cur_req"].get(me)
+            if r is not None:
+                r["calls"].append(c)
+            prev = cur_call.get(me)
+            cur_call[me] = c
+            try:
+                super()._notify_transport(kind, capabilities)
+                c["raised"] = False
+            except BaseException as e:
+                c["raised"] = type(e).__name__
+                raise
+            finally:
+                c["ret"] = len(log)
+                log.append({"e": "ret", "i": calls.index(c)})
+                if prev is None:
+                    cur_call.pop(me, None)
+                else:
+                    cur_call[me] = prev
+
+    srv = Srv(Svc, Impl())
+    client: Any = None
+    if need_http:
+        client = make_sync_client(srv, token_key=b"k" * 32)
+        client.__class__ = QuietClient  # same object; falcon's error log goes to a sink instead of stderr
+
+    def do_http(rec: dict[str, Any], n: int) -> None:
+        try:
+            with http_connect(Svc, client=client) as p:
+                rec["out"] = ["ok", p.ping(n=n)]
+        except RpcError as e:
+            rec["out"] = ["err", e.error_type]
+
+    def do_serve(rec: dict[str, Any], n: int, op: str) -> None:
+        # the client sent one request and closed: serve() answers it, sees EOF and returns.  Plain in-memory
+        # streams (no scheduling points at reads/writes: the response bytes are not what this property is about)
+        rd, wr = io.BytesIO(request_bytes(n)), io.BytesIO()
+        if op == "P":
+            tr: Any = PipeTransport(rd, wr)
+        elif op == "M":
+            tr = ShmPipeTransport(PipeTransport(rd, wr), shm_segment())
+        else:
+            tr = MemUnix(rd, wr)
+        try:
+            srv.serve(tr)
+            rec["out"] = ["ok", len(wr.getvalue()) > 0]
+        except HookBoom:
+            rec["out"] = ["err", "HookBoom"]
+
+    def worker(i: int, ops: str) -> None:
+        w = rig["w"]
+        for j, op in enumerate(ops):
+            n = 10 * i + j
+            rec = {"task": i, "op": op, "n": n, "calls": [], "bodies": [], "out": None}
+            w["reqs"].append(rec)
+            w["cur_req"][tid()] = rec
+            S.point(f"req:{op}")
+            try:
+                if op == "H":
+                    do_http(rec, n)
+                else:
+                    do_serve(rec, n, op)
+            finally:
+                w["cur_req"].pop(tid(), None)
 
     def setup(s: S.Sched) -> Any:
-        log: list[dict[str, Any]] = []  # total order of monitor events
-        calls: list[dict[str, Any]] = []
-        reqs: list[dict[str, Any]] = []
-        w: dict[str, Any] = {"log": log, "calls": calls, "reqs": reqs, "hooks": 0}
-        cur_call: dict[int, dict[str, Any]] = {}
-        cur_req: dict[int, dict[str, Any]] = {}
-
-        def tid() -> int:
-            t = s.current()
-            return -1 if t is None else t.id
-
-        class Impl:
-            def on_serve_start(self, kind: Any) -> None:
-                w["hooks"] += 1
-                k = w["hooks"]
-                c = cur_call.get(tid())
-                ev = {"e": "hook", "kind": str(kind.value), "n": k, "res": None, "pos": len(log)}
-                log.append(ev)
-                if c is not None:
-                    c["hooks"].append(ev)
-                else:
-                    w.setdefault("stray_hooks", []).append(ev)
-                S.point("hook:enter")
-                if k <= n_fail:
-                    ev["res"] = "raise"
-                    ev["end"] = len(log)
-                    log.append({"e": "hook-end", "n": k})
-                    raise HookBoom(f"hook failure {k}")
-                ev["res"] = "ok"
-                ev["end"] = len(log)
-                log.append({"e": "hook-end", "n": k})
-
-            def ping(self, n: int) -> int:
-                kind = srv.transport_kind
-                ev = {"e": "body", "n": n, "seen": None if kind is None else str(kind.value), "pos": len(log)}
-                log.append(ev)
-                r = cur_req.get(tid())
-                if r is not None:
-                    r["bodies"].append(ev)
-                S.point("body")
-                return n + 1
-
-        class Srv(RpcServer):
-            """Logs entry/exit of the real method (linearizability history)."""
-
-            def _notify_transport(self, kind: Any, capabilities: frozenset[str]) -> None:
-                c = {"task": tid(), "kind": str(kind.value), "caps": tuple(sorted(capabilities)), "inv": len(log),
-                     "ret": None, "raised": None, "hooks": []}
-                calls.append(c)
-                log.append({"e": "call", "i": len(calls) - 1})
-                r = cur_req.get(tid())
-                if r is not None:
-                    r["calls"].append(c)
-                prev = cur_call.get(tid())
-                cur_call[tid()] = c
-                try:
-                    super()._notify_transport(kind, capabilities)
-                    c["raised"] = False
-                except BaseException as e:
-                    c["raised"] = type(e).__name__
-                    raise
-                finally:
-                    c["ret"] = len(log)
-                    log.append({"e": "ret", "i": calls.index(c)})
-                    if prev is None:
-                        cur_call.pop(tid(), None)
-                    else:
-                        cur_call[tid()] = prev
-
-        impl = Impl()
-        srv = Srv(Svc, impl)
+        w: dict[str, Any] = {"log": [], "calls": [], "reqs": [], "hooks": 0, "cur_call": {}, "cur_req": {}, "srv": srv}
+        rig["w"], rig["s"] = w, s
+        srv._transport_kind = None
+        srv._transport_capabilities = frozenset()
         srv._transport_lock = S.CoopLock("tl")  # type: ignore[assignment]
-        w["srv"] = srv
-        client = make_sync_client(srv, token_key=b"k" * 32) if need_http else None
-
-        def do_http(rec: dict[str, Any], n: int) -> None:
-            try:
-                with http_connect(Svc, client=client) as p:
-                    rec["out"] = ["ok", p.ping(n=n)]
-            except RpcError as e:
-                rec["out"] = ["err", e.error_type]
-
-        def do_serve(rec: dict[str, Any], n: int, op: str) -> None:
-            # the client sent one request and closed: serve() answers it, sees EOF and returns.  Plain in-memory
-            # streams (no scheduling points at reads/writes: the response bytes are not what this property is about)
-            rd, wr = io.BytesIO(request_bytes(n)), io.BytesIO()
-            if op == "P":
-                tr: Any = PipeTransport(rd, wr)
-            elif op == "M":
-                tr = ShmPipeTransport(PipeTransport(rd, wr), shm_segment())
-            else:
-                tr = MemUnix(rd, wr)
-            try:
-                srv.serve(tr)
-                rec["out"] = ["ok", len(wr.getvalue()) > 0]
-            except HookBoom:
-                rec["out"] = ["err", "HookBoom"]
-            rec["resp_bytes"] = len(wr.getvalue())
-
-        def worker(i: int, ops: str) -> None:
-            for j, op in enumerate(ops):
-                n = 10 * i + j
-                rec = {"task": i, "op": op, "n": n, "calls": [], "bodies": [], "out": None, "start": len(log)}
-                reqs.append(rec)
-                cur_req[tid()] = rec
-                S.point(f"req:{op}")
-                try:
-                    if op == "H":
-                        do_http(rec, n)
-                    else:
-                        do_serve(rec, n, op)
-                finally:
-                    cur_req.pop(tid(), None)
-                    rec["end"] = len(log)
-
         for i, ops in enumerate(cfg["tasks"]):
             s.spawn(lambda i=i, ops=ops: worker(i, ops), f"t{i}")
 
         def state() -> Any:
             k = srv.transport_kind
-            return (None if k is None else k.value, tuple(sorted(srv.transport_capabilities)), w["hooks"], len(log))
+            return (None if k is None else k.value, tuple(sorted(srv.transport_capabilities)), w["hooks"], len(w["log"]))
 
         s.state_fn = state
-        _ = TransportKind
         return w
 
     return setup
